@@ -53,6 +53,7 @@ type evidence struct {
 	Unreproduced     int
 	Violations       int
 	KnownFindings    []string
+	Cross            []map[string]interface{}
 	Funcs            []string
 	LoadS            float64
 	wall             float64
@@ -171,6 +172,7 @@ func (e *evidence) write() error {
 		"translator_validation_failures": e.ValidationFailed,
 		"counterexamples_not_reproduced": e.Unreproduced,
 		"known_findings_rediscovered":    e.KnownFindings,
+		"cross_solver":                   e.Cross,
 		"checker_cmd":                    fmt.Sprintf("bin/vcheck run %s --tier %s", p.ID, e.tier),
 		"trusted_base": []string{"go/ssa translation of Go", "symgo executor and intrinsics (validated on every run by native replay of path models)",
 			"z3 (cross-checkable with --solver cvc5|z3-new)", "reference oracles in harness/", "native replay harness"},
